@@ -373,10 +373,31 @@ def exh_invalid_shard(args):
     return agg
 
 
+NUMBER_FORMS = ["1_000", "1_0.5_0e1_0", "1_.5", "1_e5", "1_E5", "1.5_e3", "1.5_", "1_", "1__0", "_1", "1._5", "1.e5", "1e_5",
+                "1e5_", "1e+_5", "0_1", "0_", "00", "01", "0.0_0", "1e0_0", "1_0e1_0", "9_9.9_9", "1.5_5e-1_0", "1_2_3_4", "1e1__0",
+                "1.0__0", "1_.", "1_x", "1_ 2", "0x_1", "1e", "1e+", "1.", "1.x", ".5", "1..2", "1.2.3", "1e5e5", "1e5.5"]
+
+
+def number_forms_shard(args):
+    """Every underscore / fraction / exponent junction of the number grammar, in several contexts."""
+    agg = Agg()
+    srv = Server()
+    try:
+        for form in NUMBER_FORMS:
+            for ctx in (b"%s", b"[%s]", b"x + %s;", b"%s\n", b"{a: %s}", b"f(%s, 2)"):
+                check_input(agg, srv, ctx.replace(b"%s", form.encode()), "exh_number_forms")
+            agg.add("number_forms", form)
+    finally:
+        srv.close()
+    return agg
+
+
 def run(tier, seed):
     t0 = time.time()
     quick = tier != "thorough"
     total = Agg()
+    for a in common.pmap(number_forms_shard, [(seed,)]):
+        total.merge(a)
     n = 160_000 if quick else 6_000_000
     for a in common.pmap(gen_shard, [(seed * 503 + i, n // 64) for i in range(64)]):
         total.merge(a)
